@@ -192,5 +192,5 @@ func TestVerifC07Websocket(t *testing.T) {
 		}},
 		{name: "ws-deflate-dense", dec: "ws.client.deflate", build: dense([]byte{0xc1, 1, 0})},
 	}
-	vC07Drive(t, decs, helpers, fams, 500, 40000)
+	vC07Drive(t, decs, helpers, fams, 500, 6000)
 }
